@@ -1003,7 +1003,10 @@ def r14h(ctx: Context) -> None:
                 rule.fail(key, where(func, node), f"{func.short} splits the document with {name}(): str.splitlines() also breaks lines at form feed, vertical tab, NEL, U+2028/2029 and friends, so rules receive other lines (and line numbers) than the file has")
             elif name == "readlines":
                 splitters += 1
-                rule.ok(key, "file read line by line (newline-terminated lines)")
+                if node.args or node.keywords:
+                    rule.fail(key, where(func, node), f"{func.short} calls readlines({norm(node.args[0]) if node.args else norm(node.keywords[0].value)}): the argument is a size hint, reading stops once about that many characters were read, so the tokens and the lines of a larger document end early - without an error")
+                else:
+                    rule.ok(key, "file read line by line (newline-terminated lines), whole file")
             elif name in ("split", "rsplit"):
                 splitters += 1
                 sep = node.args[0] if node.args else None
